@@ -83,7 +83,7 @@ class C15(Prop):
                  4: "W5 producer blocked on a full queue, get then close at once"}
         for ln, o in zip(wl, wout):
             f = o.split()
-            if len(f) != 15:
+            if len(f) != 18:
                 continue
             v = [int(x) for x in f]
             for i, nm in names.items():
